@@ -257,7 +257,7 @@ def run_model(outdir, timeout=3000):
     return ok
 
 
-def compare(outdir, max_report=20, nontrivial=None):
+def compare(outdir, max_report=20, nontrivial=None, distinct_key=None):
     """Compare impl.*.txt with model.*.txt line by line.
 
     Returns dict(total, mismatches=[{id, case, impl, model}], model_errors)."""
@@ -277,8 +277,9 @@ def compare(outdir, max_report=20, nontrivial=None):
                 total += 1
                 cid, _, cbody = lc.rstrip("\n").partition(" ")
                 if nontrivial is None or nontrivial(cbody, li):
-                    distinct.add(hashlib.blake2b(cbody.encode(), digest_size=8).digest())
-                if len(samples) < 3 and total % 9973 == 1:
+                    dk = distinct_key(cbody, li) if distinct_key else cbody
+                    distinct.add(hashlib.blake2b(dk.encode(), digest_size=8).digest())
+                if len(samples) < 3 and (total % 9973 == 1 or total in (2, 3)):
                     samples.append({"case": cbody[:400], "result": li.rstrip("\n").partition(" ")[2][:400]})
                 if li != lm:
                     nmism += 1
